@@ -41,7 +41,7 @@ BASIC_BLOCKS = {"rates", "user_print", "user_punch", "user_graph", "calculate_va
 
 BASES = ["sol", "spread", "eq", "exch", "surf", "kin", "gas", "ss", "ops", "adv", "trn", "inv", "out", "dbk", "iso", "pitz", "sit",
          "modify", "surfdl", "incl", "raw"]
-QUICK_D1 = ["eq", "kin", "ops", "gas", "sit"]          # bases whose whole D1 neighbourhood is in the quick tier
+QUICK_D1 = ["eq", "ops", "gas", "sit", "ss", "exch"]     # no time integration: a wrong-signed rate can run for minutes          # bases whose whole D1 neighbourhood is in the quick tier
 
 _cache = {}
 
